@@ -366,6 +366,151 @@ example : StrictRegularGrad exCR true exImgR exSR ∧ RegularHess exCR true exIm
     simp only [exSR, List.forall_mem_cons, List.not_mem_nil, false_imp_iff, implies_true, and_true]
     norm_num [exR1, exR2, exR3, exCR, exImgR, exXR, smallOf, vgMax, maxK, hessNum, zeroed, ybarTB, fwd, sumMap]
 
+/-! ## histories: ONE object set up several times — the cached (subset) sensitivities
+"… the (subset) sensitivity … returned by the Poisson log-likelihood … equal the expressions derived from L …" and
+"each quantity summed over all subsets equals its full-data counterpart", quantified over *histories*: the members
+`subsensitivity_sptrs` / `sensitivity_sptr` survive from one `set_up` to the next (`SensObj`: a heap of images and the
+pointers into it, `setUpSens` = the sensitivity part of `PoissonLogLikelihoodWithLinearModelForMean::set_up`,
+`compute_sensitivities`, `set_total_or_subset_sensitivities`, reading and writing the sensitivity files).  The harness
+drives one real object through 2–5 `set_up`s with changed configurations and compares `get_subset_sensitivity` /
+`get_sensitivity` with the state of the model object after every one (`hsetup` / `hsub` / `htot` lines). -/
+
+/-- **a `set_up` that computes the sensitivities forgets the past**: for ANY state `o` of the object (whatever earlier
+    `set_up`s, with whatever data, normalisation, number of subsets, `use_subset_sensitivities`, left in
+    `subsensitivity_sptrs` / `sensitivity_sptr`, dangling or shared pointers included) and any files on disk, any image type and
+    operations, any number of subsets `n ≥ 1`: if `set_up` is not refused and computes the sensitivities (`willCompute`: the
+    member `recompute_sensitivity` is on, or there is nothing to read), then it succeeds and afterwards
+    * with `use_subset_sensitivities`: `get_subset_sensitivity(s)` is `0 + inc s` (an image of zeroes to which
+      `add_subset_sensitivity(·, s)` was applied once) for every `s < n`, and `get_sensitivity()` is subset 0's plus subsets 1 … n−1;
+    * without: `get_sensitivity()` is the image of zeroes with all subsets accumulated, `get_subset_sensitivity(s)` that divided by `n`;
+    the member `recompute_sensitivity` is on and the files are what `writeSens` makes of them.  Nothing on the right-hand sides
+    mentions `o`: the result is that of a newly constructed object (next theorem). -/
+theorem C05_resetup_sensitivities {I : Type} (ops : ImgOps I) (c : SensCfg) (inc : Nat → I) (o : SensObj I) (files : SensFiles I)
+    (hn : 0 < c.n) (hacc : c.accepted = true) (hw : willCompute c o = true) :
+    (setUpSens ops c inc o files).1 = true ∧
+    (c.useSub = true →
+      (∀ t, t < c.n → (setUpSens ops c inc o files).2.1.getSub t = some (ops.add ops.zero (inc t))) ∧
+      (setUpSens ops c inc o files).2.1.getTot = some (sumSubs ops (fun t => ops.add ops.zero (inc t)) (c.n - 1))) ∧
+    (c.useSub = false →
+      (∀ t, t < c.n → (setUpSens ops c inc o files).2.1.getSub t = some (ops.divN (accSens ops inc c.n) c.n)) ∧
+      (setUpSens ops c inc o files).2.1.getTot = some (accSens ops inc c.n)) ∧
+    (setUpSens ops c inc o files).2.1.recompute = true ∧
+    (setUpSens ops c inc o files).2.2 = writeSens c (setUpSens ops c inc o files).2.1 files :=
+  setUpSens_computes ops c inc o files hn hacc hw
+
+/-- **re-used object = fresh object**: after a computing `set_up`, every subset sensitivity and the total sensitivity of an object
+    in ANY earlier state are those of a newly constructed object given the same configuration (whose `recompute_sensitivity` the
+    caller switched on), and the same files are written -/
+theorem C05_resetup_same_as_fresh {I : Type} (ops : ImgOps I) (c : SensCfg) (inc : Nat → I) (o : SensObj I) (files : SensFiles I)
+    (hn : 0 < c.n) (hacc : c.accepted = true) (hw : willCompute c o = true) :
+    (∀ t, t < c.n → (setUpSens ops c inc o files).2.1.getSub t =
+        (setUpSens ops c inc { (SensObj.fresh : SensObj I) with recompute := true } files).2.1.getSub t) ∧
+    (setUpSens ops c inc o files).2.1.getTot =
+        (setUpSens ops c inc { (SensObj.fresh : SensObj I) with recompute := true } files).2.1.getTot ∧
+    (∀ t, t < c.n → (setUpSens ops c inc o files).2.2.sub t =
+        (setUpSens ops c inc { (SensObj.fresh : SensObj I) with recompute := true } files).2.2.sub t) ∧
+    ((c.useSub = false ∧ c.totName = true) → (setUpSens ops c inc o files).2.2.tot =
+        (setUpSens ops c inc { (SensObj.fresh : SensObj I) with recompute := true } files).2.2.tot) := by
+  have hwf : willCompute c { (SensObj.fresh : SensObj I) with recompute := true } = true := by simp [willCompute]
+  obtain ⟨_, a1, a2, _, a4⟩ := setUpSens_computes ops c inc o files hn hacc hw
+  obtain ⟨_, b1, b2, _, b4⟩ := setUpSens_computes ops c inc _ files hn hacc hwf
+  have hsub : ∀ t, t < c.n → (setUpSens ops c inc o files).2.1.getSub t =
+      (setUpSens ops c inc { (SensObj.fresh : SensObj I) with recompute := true } files).2.1.getSub t := by
+    intro t ht
+    cases hu : c.useSub
+    · rw [(a2 hu).1 t ht, (b2 hu).1 t ht]
+    · rw [(a1 hu).1 t ht, (b1 hu).1 t ht]
+  have htot : (setUpSens ops c inc o files).2.1.getTot =
+      (setUpSens ops c inc { (SensObj.fresh : SensObj I) with recompute := true } files).2.1.getTot := by
+    cases hu : c.useSub
+    · rw [(a2 hu).2, (b2 hu).2]
+    · rw [(a1 hu).2, (b1 hu).2]
+  refine ⟨hsub, htot, ?_, ?_⟩
+  · intro t ht
+    rw [a4, b4]
+    simp only [writeSens]
+    split
+    · split
+      · simp [ht, hsub t ht]
+      · rfl
+    · split <;> rfl
+  · rintro ⟨hu, hname⟩
+    rw [a4, b4]
+    simp [writeSens, hu, hname, htot]
+
+/-- **the sensitivity files give the sensitivities back**: a later `set_up` with `recompute_sensitivity` off — of ANY object, the
+    writer itself or a second one — that finds the files a computing `set_up` of the same configuration wrote (subset files with
+    `use_subset_sensitivities`, the total otherwise), succeeds, holds the same subset sensitivities and the same total as the
+    writer, and leaves the files alone -/
+theorem C05_sensitivity_files_read_back {I : Type} (ops : ImgOps I) (c : SensCfg) (inc inc2 : Nat → I) (o o2 : SensObj I)
+    (files : SensFiles I) (hn : 0 < c.n) (hacc : c.accepted = true) (hw : willCompute c o = true)
+    (hname : (if c.useSub then c.subName else c.totName) = true) (hr2 : o2.recompute = false) :
+    (setUpSens ops c inc2 o2 (setUpSens ops c inc o files).2.2).1 = true ∧
+      (∀ t, t < c.n → (setUpSens ops c inc2 o2 (setUpSens ops c inc o files).2.2).2.1.getSub t
+          = (setUpSens ops c inc o files).2.1.getSub t) ∧
+      (setUpSens ops c inc2 o2 (setUpSens ops c inc o files).2.2).2.1.getTot = (setUpSens ops c inc o files).2.1.getTot ∧
+      (setUpSens ops c inc2 o2 (setUpSens ops c inc o files).2.2).2.2 = (setUpSens ops c inc o files).2.2 :=
+  setUpSens_reads_back ops c inc inc2 o o2 files hn hacc hw hname hr2
+
+/-- **after any history the sensitivities are the textbook ones** (images with values in an ordered field, voxel-wise operations;
+    `Ss` = the viewgrams of the subsets, which together are a rearrangement of the viewgrams `All` of the data — C06): whatever
+    state the object was in, after a computing `set_up` with `Ss.length` subsets
+    * `get_sensitivity()` is the sensitivity of the whole data set, `P^T n` over `All` (`sens`: the back projection of the
+      efficiencies), with and without `use_subset_sensitivities`;
+    * `get_subset_sensitivity(s)` is the sensitivity of subset `s` with `use_subset_sensitivities`, the total divided by the
+      number of subsets without -/
+theorem C05_resetup_sensitivities_textbook (zero : Bool) (Ss : List (List (Viewgram K))) (All : List (Viewgram K))
+    (h : Ss.flatten.Perm All) (c : SensCfg) (o : SensObj (Nat → K)) (files : SensFiles (Nat → K))
+    (hn : c.n = Ss.length) (hpos : 0 < Ss.length) (hacc : c.accepted = true) (hw : willCompute c o = true) :
+    (setUpSens (fieldOps K) c (sensInc zero Ss) o files).2.1.getTot = some (fun v => sens zero All v) ∧
+    (c.useSub = true → ∀ s, s < Ss.length →
+      (setUpSens (fieldOps K) c (sensInc zero Ss) o files).2.1.getSub s = some (fun v => sens zero (Ss.getD s []) v)) ∧
+    (c.useSub = false → ∀ s, s < Ss.length →
+      (setUpSens (fieldOps K) c (sensInc zero Ss) o files).2.1.getSub s = some (fun v => sens zero All v / (Ss.length : K))) := by
+  have hn0 : 0 < c.n := by omega
+  obtain ⟨_, a1, a2, _, _⟩ := setUpSens_computes (fieldOps K) c (sensInc zero Ss) o files hn0 hacc hw
+  have hacc' : ∀ v, accSens (fieldOps K) (sensInc zero Ss) c.n v = sens zero All v := by
+    intro v; rw [accSens_field, hn]; exact sum_sensInc zero Ss All h v
+  have hsum' : ∀ v, sumSubs (fieldOps K) (fun t => (fieldOps K).add (fieldOps K).zero (sensInc zero Ss t)) (c.n - 1) v
+      = sens zero All v := by
+    intro v
+    rw [sumSubs_field]
+    have : c.n - 1 + 1 = Ss.length := by omega
+    rw [this]; exact sum_sensInc zero Ss All h v
+  refine ⟨?_, ?_, ?_⟩
+  · cases hu : c.useSub
+    · rw [(a2 hu).2]; congr 1; funext v; exact hacc' v
+    · rw [(a1 hu).2]; congr 1; funext v; exact hsum' v
+  · intro hu s hs
+    rw [(a1 hu).1 s (by omega)]
+    congr 1; funext v
+    simp [fieldOps, sensInc]
+  · intro hu s hs
+    rw [(a2 hu).1 s (by omega)]
+    congr 1; funext v
+    show accSens (fieldOps K) (sensInc zero Ss) c.n v / ((c.n : Nat) : K) = _
+    rw [hacc' v, hn]
+
+/-- non-vacuity: an object that two earlier `set_up`s (3 subsets with subset sensitivities, then 2 subsets without) have left
+    with images in every slot is set up a third time with 2 subsets and subset sensitivities, images = rational numbers,
+    `add_subset_sensitivity` adding 10 resp. 20: the subset sensitivities are 10 and 20 (not 10 + old, 20 + old), the total 30, as
+    for a new object; then the files it wrote are read back by a fourth `set_up` -/
+example :
+    let ops : ImgOps Rat := { zero := 0, add := (· + ·), divN := fun a n => a / n }
+    let c1 : SensCfg := { useSub := true, n := 3, totName := false, subName := false, accepted := true }
+    let c2 : SensCfg := { useSub := false, n := 2, totName := false, subName := false, accepted := true }
+    let c3 : SensCfg := { useSub := true, n := 2, totName := false, subName := true, accepted := true }
+    let r1 := setUpSens ops c1 (fun s => (s + 1 : Nat)) (SensObj.fresh : SensObj Rat) SensFiles.empty
+    let r2 := setUpSens ops c2 (fun s => (7 * (s + 1) : Nat)) r1.2.1 r1.2.2
+    let r3 := setUpSens ops c3 (fun s => (10 * (s + 1) : Nat)) r2.2.1 r2.2.2
+    let r4 := setUpSens ops c3 (fun _ => 0) { r3.2.1 with recompute := false } r3.2.2
+    willCompute c3 r2.2.1 = true ∧
+    (r1.2.1.getSub 0, r1.2.1.getSub 2, r1.2.1.getTot) = (some 1, some 3, some 6) ∧
+    (r2.2.1.getSub 0, r2.2.1.getSub 1, r2.2.1.getTot) = (some (21 / 2), some (21 / 2), some 21) ∧
+    (r3.1, r3.2.1.getSub 0, r3.2.1.getSub 1, r3.2.1.getTot) = (true, some 10, some 20, some 30) ∧
+    (r4.1, r4.2.1.getSub 0, r4.2.1.getSub 1, r4.2.1.getTot) = (true, some 10, some 20, some 30) := by
+  decide +kernel
+
 /-! ## the executable accumulation used by the driver is the image of the model -/
 
 theorem C05_accumulate_is_image (n : Nat) (cs : List (Nat × K)) (v : Nat) (hv : v < n) :
